@@ -22,12 +22,14 @@ var client = &http.Client{
 }
 
 func looksLikeJUnitXMLTestResults(b []byte) bool {
+	// Tolerate a byte-order mark and whitespace before the document, as XML parsers do.
+	b = bytes.TrimLeft(bytes.TrimPrefix(b, []byte("\xef\xbb\xbf")), " \t\r\n")
 	return bytes.HasPrefix(b, []byte{'<', '?', 'x', 'm', 'l'}) || bytes.HasPrefix(b, []byte{'<', 't', 'e', 's', 't'})
 }
 
 func parseJUnitXMLTestResults(data []byte) (core.TestSuites, error) {
 	results := core.TestSuites{}
-	decoder := xml.NewDecoder(bytes.NewReader(data))
+	decoder := xml.NewDecoder(bytes.NewReader(bytes.TrimPrefix(data, []byte("\xef\xbb\xbf"))))
 	for {
 		token, err := decoder.Token()
 		switch err {
